@@ -170,6 +170,10 @@ def run(prop, tier, seed, replay=None):
                                          ["put", "cal1", "b.ics", "@model:7"],
                                          ["multiget", "cal1", [["live", "a.ics"], ["othercoll:cal2", "a.ics"], ["live", "b.ics"]]],
                                          ["multiget", "cal2", [["othercoll:cal1", "a.ics"], ["live", "a.ics"]]],
+                                         # a long request (more hrefs than any internal batch size) with
+                                         # the same href at both ends
+                                         ["multiget", "cal1", [["live", "a.ics"]] + [["missing", "m%03d.ics" % k] for k in range(70)] +
+                                          [["dup", "a.ics"], ["live", "b.ics"], ["dup", "m003.ics"]]],
                                          # several spellings of one member's path in one request
                                          ["multiget", "cal1", [["live", "a.ics"], ["dotpath", "a.ics"], ["dotpath", "b.ics"],
                                                                ["live", "b.ics"], ["dotpath", "zz.ics"], ["missing", "zz.ics"]]]]),
@@ -210,6 +214,27 @@ def run(prop, tier, seed, replay=None):
                                                 ["restart", {"defaults": True}], ["restart"],
                                                 ["propupdate", "ab1", [["displayname", None]]],
                                                 ["restart", {"defaults": True}]]),
+        # members created without a name (POST): the name is the server's choice, but never one
+        # that belongs to another member
+        "post-names": (HTTP_CONFIGS[0], [["mk", "cal1", "calendar"], ["put", "cal1", "a.ics", "@model:1"],
+                                         ["post", "cal1", "@uid-is-a", "text/calendar"], ["get", "cal1", "a.ics"],
+                                         ["post", "cal1", "@uid-is-a", "text/calendar"],
+                                         ["post", "cal1", "@uid-is-path", "text/calendar"],
+                                         ["post", "cal1", "@model:3", "text/calendar"], ["restart"], ["get", "cal1", "a.ics"]]),
+        # conditional requests on a member whose name starts with a dot
+        "dot-name-conditions": (HTTP_CONFIGS[2], [["put", "cal1", ".hidden.ics", "@model:1"],
+                                                  ["put", "cal1", ".hidden.ics", "@model:2", {"inm": ["star"]}],
+                                                  ["put", "cal1", ".hidden.ics", "@model:2", {"im": ["cur"]}],
+                                                  ["get", "cal1", ".hidden.ics", {"inm": ["cur"]}],
+                                                  ["delete", "cal1", ".hidden.ics", {"im": ["stale"]}],
+                                                  ["delete", "cal1", ".hidden.ics", {"im": ["cur"]}],
+                                                  ["put", "cal1", ".hidden.ics", "@model:1", {"im": ["star"]}]]),
+        "dot-name-conditions-tree": (HTTP_CONFIGS[0], [["mk", "cal1", "calendar"], ["put", "cal1", ".hidden.ics", "@model:1"],
+                                                       ["put", "cal1", ".hidden.ics", "@model:2", {"inm": ["star"]}],
+                                                       ["put", "cal1", ".hidden.ics", "@model:2", {"im": ["cur"]}],
+                                                       ["get", "cal1", ".hidden.ics", {"inm": ["cur"]}],
+                                                       ["delete", "cal1", ".hidden.ics", {"im": ["stale"]}],
+                                                       ["delete", "cal1", ".hidden.ics", {"im": ["cur"]}]]),
         # both conditional headers on one request, in every combination of satisfied / violated
         "both-conditions": (HTTP_CONFIGS[0], [["mk", "cal1", "calendar"], ["put", "cal1", "a.ics", "@model:1"]] + [
             ["put", "cal1", "a.ics", "@model:%d" % (2 if k % 2 else 1), {"im": im, "inm": inm}]
